@@ -33,10 +33,30 @@ Fixpoint model_obs (as_ : list addr) (ks : list key) (k : keeper) (txs : list (l
     {| o_rets := rs; o_table := table_of_keeper as_ ks k1 |} :: model_obs as_ ks k1 rest
   end.
 
+(** the driver marks a failed Commit with code -7 in every row *)
+Definition obs_failed (o : tx_obs) : bool :=
+  existsb (fun r : arow => let '(_, _, _, c, _) := r in c =? -7) (o_table o).
+
+(** the model against the observed history: return values of every call; after a Commit that the
+    model predicts to succeed the keeper table; a Commit the model predicts to FAIL (negative unibi
+    balance, only reachable by overdrawing call sequences of the malformed stream) must fail, and
+    nothing is compared afterwards (Go leaves a partial write) *)
+Fixpoint model_matches (as_ : list addr) (ks : list key) (k : keeper) (txs : list (list op)) (obs : list tx_obs) : bool :=
+  match txs, obs with
+  | [], [] => true
+  | t :: rest, o :: os =>
+    let '(f, rs) := run t (new_full k) in
+    list_eqb zlist_eqb rs (o_rets o) &&
+    (if commit_fails (core f) then obs_failed o
+     else let k1 := commit (core f) in
+          list_eqb row_eqb (table_of_keeper as_ ks k1) (o_table o) && model_matches as_ ks k1 rest os)
+  | _, _ => false
+  end.
+
 (** model output ≠ observed: (i) the StateDB model vs Nibiru on EVERY case (also malformed ones);
     (ii) on protocol-obeying cases the reference semantics vs go-ethereum, up to empty accounts *)
 Definition mismatch_seq (c : trace) : bool :=
-  negb (list_eqb obs_eqb (model_obs (t_addrs c) (t_keys c) empty_keeper (t_txs c)) (t_nib c)) ||
+  negb (model_matches (t_addrs c) (t_keys c) empty_keeper (t_txs c) (t_nib c)) ||
   (wf_txs_b (t_addrs c) (t_keys c) empty_world (t_txs c) &&
    negb (list_eqb obs_eqb (norm_all (t_txs c) (ref_obs (t_addrs c) (t_keys c) empty_world (t_txs c)))
                           (norm_all (t_txs c) (t_geth c)))).
